@@ -38,12 +38,14 @@ example : KnownEapi (some 4) ∧ (pmsOpts (some 4)).useDepDefaults = true ∧ (p
 `atom.valid_slot_chars` / `valid_repo_chars` are exactly the ASCII characters satisfying `slotChar` / `repoChar`
 (and those predicates are false outside ASCII), `valid_ops` are the six operators, and the four regular
 expressions of `cpv.py` / `eapi.py` have the text that `validCat`, `validPkgChunk`, `lexVer`, `validUseFlag` were
-written from. -/
+written from.  (For the version pattern the PMS spelling `[a-z]?` of the letter is admitted as well: it is the repair
+of the open finding `C03-uppercase-version-letter`, whose input class the correspondence tolerates in both readings.) -/
 theorem tables_pinned :
     Generated.C03.validSlotChars = (List.range 128).filter (fun n => slotChar (Char.ofNat n)) ∧
     Generated.C03.validRepoChars = (List.range 128).filter (fun n => repoChar (Char.ofNat n)) ∧
     Generated.C03.validOps = ["<", "<=", "=", ">", ">=", "~"] ∧
-    Generated.C03.versionPattern = "^(?:[0-9]+)(?:\\.[0-9]+)*[a-zA-Z]?(?:_(p(?:re)?|beta|alpha|rc)[0-9]*)*\\Z" ∧
+    (Generated.C03.versionPattern = "^(?:[0-9]+)(?:\\.[0-9]+)*[a-zA-Z]?(?:_(p(?:re)?|beta|alpha|rc)[0-9]*)*\\Z" ∨
+      Generated.C03.versionPattern = "^(?:[0-9]+)(?:\\.[0-9]+)*[a-z]?(?:_(p(?:re)?|beta|alpha|rc)[0-9]*)*\\Z") ∧
     Generated.C03.categoryPattern = "^(?:[A-Za-z0-9_][A-Za-z0-9+_.-]*)\\Z" ∧
     Generated.C03.packagePattern = "^[a-zA-Z0-9+_]+\\Z" ∧
     Generated.C03.useFlagPattern = "^[A-Za-z0-9][A-Za-z0-9+_@-]*\\Z" := by
